@@ -29,7 +29,7 @@ from sa import report                         # noqa: E402
 def _analyse(prop: str, root: str, overlay: dict[str, str]):
     repo = Repo(root, overlay)
     mod = importlib.import_module(f'rules.{prop.lower()}')
-    ctx = report.Ctx(prop, repo, tier='quick')
+    ctx = report.Ctx(prop, repo, tier='selftest')
     mod.run(ctx)
     known = report.load_known()
     new, hit = report.split_failures(prop, ctx.obs, known)
